@@ -359,6 +359,10 @@ pub struct Compiler<'a, E: quiver_core::effects::Effect> {
     // State management
     scopes: Vec<Scope>,
     local_count: usize,
+    // Number of enclosing constructs (tuple literals, string holes) whose partially built operands sit on the
+    // VM stack at this point of the current function. A tail call replaces the frame, so it is
+    // only well-formed when this is zero (tail position).
+    pending_operands: usize,
     // Caller-owned; the caller keeps it after the compile (success or failure) to read the
     // type registry the semantic recorder's type-ids point into.
     program: &'a mut Program,
@@ -502,6 +506,7 @@ impl<'a, E: quiver_core::effects::Effect> Compiler<'a, E> {
             module_cache,
             scopes: vec![],
             local_count: 0,
+            pending_operands: 0,
             program,
             resolver,
             current_package,
@@ -959,6 +964,7 @@ impl<'a, E: quiver_core::effects::Effect> Compiler<'a, E> {
         // Compile field values and collect their types and provenances
         let mut field_types = Vec::new();
         let mut field_provenances = Vec::new();
+        self.pending_operands += 1;
         for (fields_compiled, field) in fields.iter().enumerate() {
             // This field's expected type, with the variables solved so far substituted in.
             let field_expected = expected_fields
@@ -1018,6 +1024,7 @@ impl<'a, E: quiver_core::effects::Effect> Compiler<'a, E> {
             field_types.push((field.name.clone(), field_type));
             field_provenances.push(field_prov);
         }
+        self.pending_operands -= 1;
 
         // Register the tuple type and emit instruction
         let tuple_id = self.program.register_tuple(tuple_name, field_types);
@@ -1453,6 +1460,7 @@ impl<'a, E: quiver_core::effects::Effect> Compiler<'a, E> {
         let saved_instructions = std::mem::take(&mut self.codegen.instructions);
         let saved_scopes = std::mem::take(&mut self.scopes);
         let saved_local_count = self.local_count;
+        let saved_pending_operands = std::mem::take(&mut self.pending_operands);
         let saved_receive_type = self.current_receive_type_id;
 
         // Extract type aliases from parent scopes to preserve in function scope
@@ -1697,6 +1705,7 @@ impl<'a, E: quiver_core::effects::Effect> Compiler<'a, E> {
         self.codegen.instructions = saved_instructions;
         self.scopes = saved_scopes;
         self.local_count = saved_local_count;
+        self.pending_operands = saved_pending_operands;
         self.current_receive_type_id = saved_receive_type;
 
         // Emit instructions to push capture values onto the stack
@@ -3718,6 +3727,9 @@ impl<'a, E: quiver_core::effects::Effect> Compiler<'a, E> {
                             (self.program.register_type(Type::nil()), Provenance::Unknown)
                         }
                     };
+                    // The flowing value and the accumulated binary are pending on the stack
+                    // while the hole is evaluated, so a tail call in a hole is not in tail position.
+                    self.pending_operands += 1;
                     let hole_type = self.compile_scoped_expression(
                         expression,
                         param_type,
@@ -3726,6 +3738,7 @@ impl<'a, E: quiver_core::effects::Effect> Compiler<'a, E> {
                         ScopeKind::Block,
                         false,
                     )?;
+                    self.pending_operands -= 1;
                     if !quiver_core::types::is_compatible(hole_type, str_type, &*self.program) {
                         return Err(Error::TypeMismatch {
                             expected: "Str".to_string(),
@@ -4440,12 +4453,25 @@ impl<'a, E: quiver_core::effects::Effect> Compiler<'a, E> {
         }
     }
 
+    /// A tail call replaces the current frame, so it must not be compiled while operands of an
+    /// enclosing tuple literal or string are pending on the stack (they would be left behind on every
+    /// iteration and shift the caller's operands).
+    fn check_tail_position(&self) -> Result<(), Error> {
+        if self.pending_operands > 0 {
+            return Err(Error::FeatureUnsupported(
+                "Tail call (`^`) inside a tuple or string is not in tail position".to_string(),
+            ));
+        }
+        Ok(())
+    }
+
     fn compile_tail_call(
         &mut self,
         identifier: Option<&str>,
         accessors: &[ast::AccessPath],
         arg_type: Option<usize>,
     ) -> Result<usize, Error> {
+        self.check_tail_position()?;
         // Handle argument - if none provided, check if function parameter is nil and use that
         let _arg_type = if let Some(arg_t) = arg_type {
             arg_t
@@ -4509,6 +4535,7 @@ impl<'a, E: quiver_core::effects::Effect> Compiler<'a, E> {
     /// nil for the bare form; either way it does not receive the flowing value (which is the
     /// function being called).
     fn compile_ripple_tail_call(&mut self, value_type: Option<usize>) -> Result<usize, Error> {
+        self.check_tail_position()?;
         let fn_type = value_type.ok_or_else(|| {
             Error::FeatureUnsupported("`^~` tail call requires a piped function".to_string())
         })?;
